@@ -276,12 +276,15 @@ impl Store {
 }
 
 pub fn store_op(universe: u8) -> impl Strategy<Value = StoreOp> {
-    let l = move || 0..universe;
+    // labels are drawn with a bias towards a few "hub" labels so that long adjacency lists arise
+    let hubs = (universe / 8).max(1);
+    let l = move || prop_oneof![3 => 0..universe, 2 => 0..hubs];
     prop_oneof![
-        20 => l().prop_map(StoreOp::NewArg),
-        10 => l().prop_map(StoreOp::RemArg),
-        40 => (l(), l()).prop_map(|(a, b)| StoreOp::NewAtt(a, b)),
-        15 => (l(), l()).prop_map(|(a, b)| StoreOp::RemAtt(a, b)),
+        20 => (0..universe).prop_map(StoreOp::NewArg),
+        10 => (0..universe).prop_map(StoreOp::RemArg),
+        40 => (0..universe, l()).prop_map(|(a, b)| StoreOp::NewAtt(a, b)),
+        8 => (l(), 0..universe).prop_map(|(a, b)| StoreOp::NewAtt(a, b)),
+        15 => (0..universe, l()).prop_map(|(a, b)| StoreOp::RemAtt(a, b)),
     ]
 }
 
@@ -291,16 +294,19 @@ impl Prop for Store {
         "C12"
     }
     fn rule(&self) -> String {
-        "Histories of 0-200 (quick) / 0-600 (thorough) operations new_argument / remove_argument / new_attack / remove_attack over a universe of 4-8 labels (usize or String), operands arbitrary (known or unknown, self-attacks, re-insertion, repeated removal), starting from new_with_labels with possibly repeated labels. After every step the whole observable state (counts, argument iteration, get_argument / get_argument_by_id / has_argument_with_id for every id ever issued, iter_attacks as a multiset, iter_attacks_from/to of every live argument) is compared with a set model, the returned Result with the model's precondition, ids with uniqueness / stability / no reuse. Non-trivial: the history removes an argument that has a self-attack or both incoming and outgoing attacks and goes on for >=3 more operations; distinct = history.".into()
+        "Histories of 0-200 (quick) / 0-600 (thorough) operations new_argument / remove_argument / new_attack / remove_attack over a universe of 4-8 labels (80%) or 20-120 labels with a bias towards a few hub labels (20%, histories twice as long, so that adjacency lists of several dozen entries and ids in the hundreds arise) (usize or String), operands arbitrary (known or unknown, self-attacks, re-insertion, repeated removal), starting from new_with_labels with possibly repeated labels. After every step the whole observable state (counts, argument iteration, get_argument / get_argument_by_id / has_argument_with_id for every id ever issued, iter_attacks as a multiset, iter_attacks_from/to of every live argument) is compared with a set model, the returned Result with the model's precondition, ids with uniqueness / stability / no reuse. Non-trivial: the history removes an argument that has a self-attack or both incoming and outgoing attacks and goes on for >=3 more operations; distinct = history.".into()
     }
     fn assumptions(&self) -> Vec<String> {
         vec!["the set model (BTreeMap/BTreeSet)".into(), "ids need not equal the insertion rank (mechanism, not checked)".into()]
     }
     fn strategy(&self, tier: Tier) -> BoxedStrategy<StoreCase> {
         let maxlen = tier.pick(200usize, 600usize);
-        (4u8..=8, any::<bool>())
+        // small universes (dense interaction) and large ones (long adjacency lists, many ids)
+        (prop_oneof![16 => 4u8..=8, 3 => 20u8..=48, 1 => 60u8..=120], any::<bool>())
             .prop_flat_map(move |(universe, string_labels)| {
-                (vec(0..universe, 0..=6), vec(store_op(universe), 0..=maxlen)).prop_map(move |(initial, ops)| StoreCase {
+                let init_max = if universe > 8 { universe as usize } else { 6 };
+                let len = if universe > 8 { maxlen * 2 } else { maxlen };
+                (vec(0..universe, 0..=init_max), vec(store_op(universe), 0..=len)).prop_map(move |(initial, ops)| StoreCase {
                     universe,
                     string_labels,
                     initial,
@@ -310,7 +316,7 @@ impl Prop for Store {
             .boxed()
     }
     fn n_cases(&self, tier: Tier) -> u32 {
-        tier.pick(300_000, 6_000_000)
+        tier.pick(200_000, 4_000_000)
     }
     fn enumerated(&self, tier: Tier) -> (Vec<StoreCase>, String) {
         // every history of bounded length over two labels
